@@ -474,8 +474,8 @@ func groupsFor(r *ev.Run) []group {
 		groups = append(groups, group{fmt.Sprintf("n=%d full product (weights 0-8 x dc x status)", n), listsProduct(n, fullW), func(i int) []nodeSpec { return decodeList(i, n, fullW) }})
 	}
 	if r.Quick() {
-		w4 := []int{0, 1, 2, 3}
-		groups = append(groups, group{"n=4 product with weights {0,1,2,3} x dc x status", listsProduct(4, w4), func(i int) []nodeSpec { return decodeList(i, 4, w4) }})
+		w4 := []int{0, 1, 2}
+		groups = append(groups, group{"n=4 product with weights {0,1,2} x dc x status", listsProduct(4, w4), func(i int) []nodeSpec { return decodeList(i, 4, w4) }})
 	}
 	for n := 5; n <= 6; n++ {
 		dims := make([]int, 3*n)
@@ -518,7 +518,7 @@ type shardOut struct {
 // enumerateShard runs every list with index%n==k of every group.
 func enumerateShard(r *ev.Run, k, n int, deadline time.Time) *shardOut {
 	groups := groupsFor(r)
-	permLimit := r.Pick(24, 120)
+	permLimit := r.Pick(6, 120)
 	out := &shardOut{GroupRuns: make([]int64, len(groups)), GroupDone: make([]int, len(groups))}
 	profiles := map[string]bool{}
 	sampled := map[string]bool{}
@@ -562,7 +562,7 @@ func enumerateShard(r *ev.Run, k, n int, deadline time.Time) *shardOut {
 					calls = 3*L + 2
 				} else if r.Quick() && L > 4 {
 					// calls that begin at 2^32-k consume k..: the ends, the middle and both sides of the wrap
-					starts = []uint32{0, 1, uint32(0) - uint32(L+1), uint32(0) - uint32(L), uint32(0) - uint32((L+1)/2), ^uint32(1), ^uint32(0)}
+					starts = []uint32{0, uint32(0) - uint32(L+1), uint32(0) - uint32((L+1)/2), ^uint32(1), ^uint32(0)}
 				} else {
 					starts = []uint32{0, 1}
 					for b := 1; b <= L+1; b++ {
@@ -709,17 +709,20 @@ func partA(r *ev.Run) {
 		}
 	}
 	var groupInfo []map[string]interface{}
-	completeUpTo := ""
+	completeUpTo := "(none)"
+	prefixDone := true
 	for i, g := range groups {
 		groupInfo = append(groupInfo, map[string]interface{}{"group": g.name, "lists": g.count, "lists_done": gDone[i], "runs": gRuns[i]})
-		if gDone[i] == g.count && completeUpTo == "" || gDone[i] == g.count && i > 0 && gDone[i-1] == groups[i-1].count {
+		if prefixDone && gDone[i] == g.count {
 			completeUpTo = g.name
+		} else {
+			prefixDone = false
 		}
 	}
 	if capped {
 		r.Capped(fmt.Sprintf("part (a): time budget used up; groups complete up to and including %q", completeUpTo))
 	}
-	permLimit := r.Pick(24, 120)
+	permLimit := r.Pick(6, 120)
 	r.Set("evaluations", st.Evals)
 	r.Set("lists", st.Lists)
 	r.Set("list_policy_cases", st.Cases)
@@ -727,7 +730,7 @@ func partA(r *ev.Run) {
 	r.Set("list_policy_cases_all_permutations", st.FullPerm)
 	r.Set("runs_started_near_counter_wrap", st.WrapRuns)
 	r.Set("groups", groupInfo)
-	r.Set("rule", fmt.Sprintf("part (a): every replica list of the groups listed under 'groups' x 3 local-read policies x shuffle answers (all permutations when the balancers in use have at most %d, else 5 fixed arrangements) x initial counters {0, 2^32-L-1} (all up, 3L+2 calls) or (some node down) {0,1,2^32-L-1..2^32-1} with 2L+2 calls in the thorough tier, {0,1,2^32-L-1,2^32-L,2^32-(L+1)/2,2^32-2,2^32-1} with L+2 calls in the quick tier when L>4; a run is non-trivial when at least two different nodes were picked or a call had to step over a down node / fall back to the remote balancer; distinct_nontrivial counts (for the runs starting at counter 0 or 1) distinct (policy, multiset of (weight, dc, status, times picked) over the nodes, failed calls) profiles of non-trivial runs, plus the distinct outcomes of the vsched scenarios of part (b)", permLimit))
+	r.Set("rule", fmt.Sprintf("part (a): every replica list of the groups listed under 'groups' x 3 local-read policies x shuffle answers (all permutations when the balancers in use have at most %d, else 5 fixed arrangements) x initial counters {0, 2^32-L-1} (all up, 3L+2 calls) or (some node down) {0,1,2^32-L-1..2^32-1} with 2L+2 calls in the thorough tier, {0,2^32-L-1,2^32-(L+1)/2,2^32-2,2^32-1} with L+2 calls in the quick tier when L>4; a run is non-trivial when at least two different nodes were picked or a call had to step over a down node / fall back to the remote balancer; distinct_nontrivial counts (for the runs starting at counter 0 or 1) distinct (policy, multiset of (weight, dc, status, times picked) over the nodes, failed calls) profiles of non-trivial runs, plus the distinct outcomes of the vsched scenarios of part (b)", permLimit))
 	r.Assume("the round-robin counter is set through an injected accessor (values near 2^32 stand for a balancer that has served ~4.3e9 selections)")
 	r.Assume("fake pools always hand out a connection, so a selection fails only when the selection logic fails")
 	r.Assume("'a selection must succeed while a replica the policy may use is up' is read into 'a down replica is never picked while another eligible replica is up'")
